@@ -18,7 +18,8 @@ def main():
              '>', '>', '+', '+', '^', '(', ')', '*2', '*3', '*', '.c', '.c$', '#i', '[a=b]', '[a="b c"]', "[a='x']", '[a]',
              '[a.]', '[!a]', '[a=b a=c]', '.d.e', '{t}', '{t $}', '{$#}', '$', '$$@-', '$@3', '/', '{a\nb}', '[t={x}]',
              'ul>li*2', 'a:link', 'link', 'bq', 'btn', '!', 'html:5', 'ol>', 'select>', 'em>', '{${1:x}}', '{${2}}', '[a=${1}]',
-             'label>input', 'form:get', 'input:t', 'meta:vp', 'script:src', 'p.', '..x', '{<div>}', '{ }', ' ']
+             'label>input', 'form:get', 'input:t', 'meta:vp', 'script:src', 'p.', '..x', '{<div>}', '{ }', ' ',
+             '.b', '.-e', '._m', '.b_m', '.--e_m', '.b__e', '[class="x -y"]']
     cfgs = [{}, {}, {}, {'syntax': 'xml'}, {'syntax': 'xsl'}, {'syntax': 'jsx'}, {'syntax': 'vue'}, {'syntax': 'pug'},
             {'syntax': 'haml'}, {'syntax': 'slim'}, {'options': {'output.format': False}},
             {'options': {'output.selfClosingStyle': 'xhtml'}}, {'options': {'comment.enabled': True}},
@@ -27,7 +28,10 @@ def main():
             {'options': {'output.tagCase': 'upper', 'output.attributeCase': 'upper', 'output.inlineBreak': 0}},
             {'text': ['one', ' two ', '', 'three']}, {'text': 'hello world'}, {'text': 'a\nb'}, {'maxRepeat': 2},
             {'syntax': 'svelte'}, {'context': {'name': 'ul'}}, {'options': {'inlineElements': []}},
-            {'snippets': {'foo': 'a.p+b.q', 'bar': 'foo>bar', 'baz': 'ul>li*2'}}]
+            {'snippets': {'foo': 'a.p+b.q', 'bar': 'foo>bar', 'baz': 'ul>li*2'}},
+            # BEM addon (model/MarkupBem.v); the dedicated streams are in harness/bem_util.py / dev_bem.py
+            {'options': {'bem.enabled': True}}, {'options': {'bem.enabled': True, 'bem.element': '-', 'bem.modifier': '--'}},
+            {'options': {'bem.enabled': True}, 'context': {'name': 'div', 'attributes': {'class': 'blk x'}}}]
     cases = []
     fixed = ['ul>li*3', 'a', 'div#a.b.c', 'p>em+span^div', '(a+b)*2>c', 'ul>.item$*2', 'p{hi}', 'a[href=x]{t}', 'img/', 'br',
              'div>(header>ul>li*2>a)+footer>p', 'table>.row>.col', 'select>.x', 'em>.x', 'p>.x', '.x', 'a+b+c', 'a>b>c^^d',
@@ -35,7 +39,8 @@ def main():
              'div>p>span+em^bq', 'p>a+b+c+d', 'div>a+b+c', 'a{x}+b{y}+{z}', '{a}+{b}', 'p>{a}+{b}', 'div>{a\nb}', 'div>p{a\nb}',
              'p{${1:foo}}>a', 'p{a ${1} b}>a+b', 'xsl:variable[select]>a', 'vare>x', 'a[b c=d]', "a['x']", 'a[x=1 x=2]',
              'div.a..b', 'div[a. b.]', 'input[disabled.]', 'input:hidden', 'a[!href]', 'a[!href=x]', '$*3', 'a$$@-5*3', 'a$@^*2>b$@^*3',
-             'ul>li*', 'ul>li*>a', 'ul>li{$#}*', 'a*0', 'a*2*3', '(a*2)*2', '(a>b*2)*2+c', 'p*2>a*2>b*2']
+             'ul>li*', 'ul>li*>a', 'ul>li{$#}*', 'a*0', 'a*2*3', '(a*2)*2', '(a>b*2)*2+c', 'p*2>a*2>b*2',
+             '.b>.-e>.-x', '.b_m>.-e+._n', 'div.b1>div.b2_m1>div.-e1+div.---e2_m2']
     for s in fixed:
         for c in cfgs:
             cases.append((s, c))
